@@ -160,6 +160,9 @@ class EFLRItem:
         if isinstance(getattr(self, key, None), Attribute):
             raise RuntimeError(f"Cannot set DLIS Attribute '{key}'. Did you mean setting '{key}.value' instead?")
 
+        if key == 'name':
+            validate_string(value)  # a name assigned later is checked like the one given at creation
+
         if key in ('name', '_origin_reference', '_copy_number'):
             self.__dict__.pop('obname', None)  # the cached OBNAME bytes depend on these; recompute on next access
 
